@@ -826,7 +826,9 @@ where
                 .copy_from_slice(&new_cell.full_data());
             *old_cell.metadata_mut() = *new_cell.metadata();
 
-            self.free_space_pointer_down(free_bytes);
+            // The bytes gained lie inside the old cell, not next to the free region: they are only
+            // accounted as (fragmented) free space and reclaimed by the next defragmentation. Moving the
+            // free-space pointer here made the next insert overwrite the cell stored last.
             self.add_free_space(free_bytes);
 
             return Ok(owned_cell);
